@@ -7,6 +7,7 @@ package main
 // the repository; never touches /repo.
 
 import (
+	"context"
 	"encoding/json"
 	"fmt"
 	"os"
@@ -15,6 +16,7 @@ import (
 	"sort"
 	"strings"
 	"sync"
+	"time"
 )
 
 type Mutant struct {
@@ -184,8 +186,14 @@ func runOneMutant(exe, repo, verif, prop string, m Mutant) mutantResult {
 		os.WriteFile(p, []byte(strings.Replace(string(b), m.Old, m.New, 1)), 0o644)
 	}
 	ev := filepath.Join(tmp, ".verif-evidence.json")
-	cmd := exec.Command(exe, "-prop", prop, "-tier", "quick", "-repo", tmp, "-verif", verif, "-evidence", ev)
+	ctx, cancel := context.WithTimeout(context.Background(), 180*time.Second)
+	defer cancel()
+	cmd := exec.CommandContext(ctx, exe, "-prop", prop, "-tier", "quick", "-repo", tmp, "-verif", verif, "-evidence", ev)
 	out, err := cmd.CombinedOutput()
+	if ctx.Err() != nil {
+		res.Status, res.Detail = "error", "checker timed out on the variant"
+		return res
+	}
 	exit := 0
 	if err != nil {
 		if ee, ok := err.(*exec.ExitError); ok {
